@@ -661,7 +661,7 @@ func (env *SpecEnv) call(x *SCall) Val {
 		case "bit":
 			u.declareBitops()
 			a, b := env.eval(x.Args[0]), env.eval(x.Args[1])
-			return Val{T: app("bit", a.T, b.T), Ty: boolT, So: "Bool"}
+			return Val{T: bitApp(a.T, b.T), Ty: boolT, So: "Bool"}
 		case "biteq":
 			u.declareBitops()
 			a, b := env.eval(x.Args[0]), env.eval(x.Args[1])
